@@ -92,7 +92,7 @@ static void closed_call_check(int i, const char *what, int failed, PError *err) 
 	if (m->decoy >= 0 && fcntl(m->decoy, F_GETFD) < 0) viol("closed-touched-descriptor", "%s on a closed socket closed an unrelated descriptor that reuses the old number", what);
 }
 #define RESET_T() do { w_t_fdcalls = 0; w_t_polls = 0; w_t_calls = 0; } while (0)
-static long long st_timed_eintr;
+static long long st_timed_eintr, st_timed_late_data;
 /* a timed wait interrupted by a signal must still not end before T: inject EINTR into the first poll() of some timed calls */
 static void maybe_interrupt_poll(MS *m, vh_rng *r) { if (m->blocking && m->timeout > 0 && vh_chance(r, 35)) { w_plan(W_POLL, WM_AT, w_calls(W_POLL) + 1, 1 + (int)vh_below(r, 2), WK_EINTR, vh_next(r)); st_timed_eintr++; } }
 
@@ -127,9 +127,10 @@ static void do_op(int i, vh_rng *r) {
 			int fd = __real_socket(m->v6 ? AF_INET6 : AF_INET, SOCK_STREAM, 0); struct sockaddr_storage ss; socklen_t sl = sizeof ss; int port = 0;
 			memset(&ss, 0, sizeof ss); ss.ss_family = (sa_family_t)(m->v6 ? AF_INET6 : AF_INET); if (m->v6) ((struct sockaddr_in6 *)&ss)->sin6_addr = in6addr_loopback; else ((struct sockaddr_in *)&ss)->sin_addr.s_addr = htonl(INADDR_LOOPBACK);
 			if (fd >= 0 && bind(fd, (struct sockaddr *)&ss, m->v6 ? sizeof(struct sockaddr_in6) : sizeof(struct sockaddr_in)) == 0 && getsockname(fd, (struct sockaddr *)&ss, &sl) == 0) port = ntohs(m->v6 ? ((struct sockaddr_in6 *)&ss)->sin6_port : ((struct sockaddr_in *)&ss)->sin_port);
-			if (fd >= 0) __real_close(fd);
-			if (!port) { st_skipped++; break; }
+			/* the reserving socket stays bound (not listening) while we connect: nobody else can obtain the port in between, the connection is refused */
+			if (!port) { if (fd >= 0) __real_close(fd); st_skipped++; break; }
 			a = loop_addr(m->v6, port); RESET_T(); ok = p_socket_connect(s, a, &err);
+			__real_close(fd);
 			if (ok) viol("connect-closed-port-succeeded", "connect to a closed port returned TRUE");
 			else if (!m->blocking) { if (w_t_polls) viol("nonblocking-waited", "non-blocking connect called poll() %ld times", w_t_polls); }
 			p_socket_address_free(a); m->bound = 1; check_getters(i, cur);
@@ -191,7 +192,12 @@ static void do_op(int i, vh_rng *r) {
 		if (m->dgram ? !m->bound : !(healthy(i) || queued(i))) { st_skipped++; break; }
 		if (m->inflight > 0) {
 			RESET_T(); n = from ? p_socket_receive_from(s, &fa, buf, sizeof buf, &err) : p_socket_receive(s, buf, sizeof buf, &err);
-			if (n <= 0) { if (m->blocking) viol("receive-failed", "receive with %ld bytes in flight returned %zd (code %d)", m->inflight, (ssize_t)n, err ? p_error_get_code(err) : 0); }
+			if (n <= 0) {
+				/* bytes accepted by the peer's send need not have reached this socket yet (Nagle holds a small segment back until the previous one
+				 * is acknowledged, delayed ACK up to 40 ms): a bounded wait may legitimately expire; only an unbounded blocking receive must deliver */
+				int code = err ? p_error_get_code(err) : 0;
+				if (m->blocking && m->timeout > 0 && code == P_ERROR_IO_TIMED_OUT) st_timed_late_data++;
+				else if (m->blocking) viol("receive-failed", "receive with %ld bytes in flight returned %zd (code %d native %d) [dgram=%d v6=%d timeout=%d] ops: %s", m->inflight, (ssize_t)n, code, err ? p_error_get_native_code(err) : 0, m->dgram, m->v6, m->timeout, oplog); }
 			else { if (memcmp(buf, "01234567890123456789012345678901234567890123456789012345678901234", (size_t)n)) viol("receive-wrong-data", "received bytes differ"); m->inflight -= n; }
 		} else {
 			if (m->blocking && m->timeout == 0) { st_skipped++; break; }
@@ -398,9 +404,11 @@ static void run_full_pipe(void) {
 	}
 }
 
+static int vh_isolated;
 int main(int argc, char **argv) {
 	vh_rng r; double t0 = vh_now(); long long n = vh_argi(argc, argv, "--n", 300); int fixed = (int)vh_argi(argc, argv, "--fixed", 10);
 	vh_seed(&r, (uint64_t)vh_argi(argc, argv, "--seed", 1) * 0x8CB92BA72F3D8DD7ULL);
+	vh_isolated = vh_private_net();
 	p_libsys_init();
 	run_sequences(&r, n, (int)vh_argi(argc, argv, "--maxcalls", 30));
 	run_fixed(&r, fixed);
